@@ -1,0 +1,62 @@
+//! Compiled only with `--cfg nucleo_verif`: public doors to crate-private items for the
+//! verification harness (the lock-free vector with its snapshot iterators, the parallel sort).
+use crate::verif::atomic::AtomicBool;
+use crate::{Item, Utf32String};
+
+pub fn par_quicksort<T, F>(v: &mut [T], is_less: F, canceled: &AtomicBool) -> bool
+where
+    T: Send,
+    F: Fn(&T, &T) -> bool + Sync,
+{
+    crate::par_sort::par_quicksort(v, is_less, canceled)
+}
+
+pub struct RawVec<T>(crate::boxcar::Vec<T>);
+
+impl<T> RawVec<T> {
+    pub fn with_capacity(capacity: u32, columns: u32) -> Self {
+        RawVec(crate::boxcar::Vec::with_capacity(capacity, columns))
+    }
+    pub fn columns(&self) -> u32 {
+        self.0.columns()
+    }
+    pub fn push(&self, value: T, fill: impl FnOnce(&T, &mut [Utf32String])) -> u32 {
+        self.0.push(value, fill)
+    }
+    pub fn extend<I>(&self, values: I, fill: impl Fn(&T, &mut [Utf32String]))
+    where
+        I: IntoIterator<Item = T> + ExactSizeIterator,
+    {
+        self.0.extend(values, fill)
+    }
+    pub fn get(&self, index: u32) -> Option<Item<'_, T>> {
+        self.0.get(index)
+    }
+    /// # Safety
+    /// see `boxcar::Vec::get_unchecked`
+    pub unsafe fn get_unchecked(&self, index: u32) -> Item<'_, T> {
+        self.0.get_unchecked(index)
+    }
+    pub fn count(&self) -> u32 {
+        self.0.count()
+    }
+    /// `(end, iterator)` of a sequential snapshot starting at `start`
+    pub fn snapshot(&self, start: u32) -> (u32, impl Iterator<Item = (u32, Option<Item<'_, T>>)> + '_) {
+        let it = unsafe { self.0.snapshot(start) };
+        (it.end(), it)
+    }
+}
+
+impl<T: Send + Sync> RawVec<T> {
+    /// `(end, parallel iterator)` of a snapshot starting at `start`
+    pub fn par_snapshot(
+        &self,
+        start: u32,
+    ) -> (
+        u32,
+        impl rayon::iter::IndexedParallelIterator<Item = (u32, Option<Item<'_, T>>)> + '_,
+    ) {
+        let it = unsafe { self.0.par_snapshot(start) };
+        (it.end(), it)
+    }
+}
